@@ -4,7 +4,6 @@ from operator import getitem
 
 from tornado import gen
 
-from dask.utils import apply
 from distributed.client import default_client
 
 from .core import Stream
@@ -145,18 +144,23 @@ class gather(core.Stream):
         raise gen.Return(result2)
 
 
+def _apply_with_args(func, x, args, kwargs):
+    return func(*(x + args), **kwargs)
+
+
 @DaskStream.register_api()
 class starmap(DaskStream):
-    def __init__(self, upstream, func, **kwargs):
+    def __init__(self, upstream, func, *args, **kwargs):
         self.func = func
         stream_name = kwargs.pop('stream_name', None)
         self.kwargs = kwargs
+        self.args = args
 
         DaskStream.__init__(self, upstream, stream_name=stream_name)
 
     def update(self, x, who=None, metadata=None):
         client = default_client()
-        result = client.submit(apply, self.func, x, self.kwargs)
+        result = client.submit(_apply_with_args, self.func, x, self.args, self.kwargs)
         return self._emit(result, metadata=metadata)
 
 
